@@ -15,7 +15,11 @@ import (
 	"fmt"
 	mrand "math/rand"
 	"os"
+	"strings"
 )
+
+// fields of the harness lines of a replay file (nil: generate)
+var replayLines [][]string
 
 var out = bufio.NewWriterSize(os.Stdout, 1<<20)
 
@@ -27,6 +31,7 @@ func main() {
 	bin := flag.String("skylight", "", "path of the skylight binary built from /repo")
 	n := flag.Int("n", 2000, "number of generated cases (requests for c19, extra random states for c20)")
 	scratch := flag.String("scratch", "", "scratch directory (created; removed by the caller)")
+	replay := flag.String("replay", "", "replay file: re-issue the requests / re-create the states named by its harness lines instead of generating")
 	flag.Parse()
 	if *bin == "" || *scratch == "" {
 		fatal("need -skylight and -scratch")
@@ -36,6 +41,20 @@ func main() {
 	}
 	defer out.Flush()
 	r := mrand.New(mrand.NewSource(*seed))
+	if *replay != "" {
+		b, err := os.ReadFile(*replay)
+		if err != nil {
+			fatal("replay: %v", err)
+		}
+		for _, l := range strings.Split(string(b), "\n") {
+			if l = strings.TrimSpace(l); strings.Contains(l, "|=>|") {
+				replayLines = append(replayLines, strings.Split(l, "|"))
+			}
+		}
+		if replayLines == nil {
+			replayLines = [][]string{}
+		}
+	}
 	switch *mode {
 	case "c19":
 		runC19(r, *bin, *scratch, *n)
